@@ -13,7 +13,7 @@ use std::rc::Rc;
 pub static ENGINE: Engine = Engine {
     prop: "C07",
     level: "exploration",
-    rule: "every Boolean function f over 4 ordered variables with gaps (65536, interned canonical diagrams) and every function over 3: m = model(f) is False iff f is unsatisfiable, else a single cube (every test has exactly one False child, chain ends in True) whose literals are variables f semantically depends on and whose assignments all satisfy f; infer(m, v) for every variable (incl. one outside) is (true,true) iff m forces v. Structured families k=5..8 exhaustively (all thresholds, parities, every cube and clause over <=5 variables). CLI: `rsbdd --evaluate=<f> -m -t` on every formula <= 3 (4) nodes of the CLI alphabet: exactly one True row for satisfiable formulas, none otherwise, and the row satisfies the reference. distinct = distinct (f, model) pairs + distinct CLI outputs",
+    rule: "every Boolean function f over 4 ordered variables with gaps (65536, interned canonical diagrams) and every function over 3: m = model(f) is False iff f is unsatisfiable, else a single cube (every test has exactly one False child, chain ends in True) whose literals are variables f semantically depends on and whose assignments all satisfy f; infer(m, v) and infer(f, v) for every variable (incl. one outside) are (true,true) iff the diagram forces v; all of it also on diagrams that were never interned in the environment asked. Structured families k=5..8 exhaustively (all thresholds, parities, every cube and clause over <=5 variables). CLI: `rsbdd --evaluate=<f> -m -t` on every formula <= 3 (4) nodes of the CLI alphabet: exactly one True row for satisfiable formulas, none otherwise, and the row satisfies the reference. distinct = distinct (f, model) pairs + distinct CLI outputs",
     assumptions: &["truth tables / cube shape read by independent walkers", "k <= 4 exhaustively; larger k only structured families"],
     max_shards: 64,
     run,
@@ -31,12 +31,12 @@ fn syms_for(k: usize) -> Vec<usize> {
     }
 }
 
-fn check_f(ctx: &mut Ctx, sp: &Space<usize>, tt: u64) {
+fn check_f(ctx: &mut Ctx, sp: &Space<usize>, tt: u64, foreign: bool) {
     let k = sp.k;
-    let case = json!({"part": "api", "k": k, "f": tt});
+    let case = json!({"part": "api", "k": k, "f": tt, "foreign": foreign});
     ctx.begin_case(|| case.clone());
     ctx.count("evaluations", 1);
-    let key = format!("{TAG} api syms={:?}: model of f={tt:#x}", sp.syms);
+    let key = format!("{TAG} api syms={:?}{}: model of f={tt:#x}", sp.syms, if foreign { " (diagram not interned in this environment)" } else { "" });
     let f = sp.get(tt);
     let env = sp.env.clone();
     let m = match guarded(|| env.model(f.clone())) {
@@ -79,6 +79,18 @@ fn check_f(ctx: &mut Ctx, sp: &Space<usize>, tt: u64) {
                 let forced = m.is_false() || lits.contains(&(v, true));
                 if (ans == (true, true)) != forced {
                     c.push(format!("infer(model, {v}) = {:?} but the model {} variable {v} to be true", ans, if forced { "forces" } else { "does not force" }));
+                }
+            }
+        }
+    }
+    // infer on f itself: (true, true) exactly when f forces v
+    for (i, v) in sp.syms.iter().cloned().enumerate().chain([(usize::MAX, 11usize)]) {
+        match guarded(|| env.infer(f.clone(), v)) {
+            Err(p) => c.push(format!("infer(f, {v}) panicked: {p}")),
+            Ok(ans) => {
+                let forced = if i == usize::MAX { tt == 0 } else { tt & !sp.var_tt(i) == 0 };
+                if (ans == (true, true)) != forced {
+                    c.push(format!("infer(f, {v}) = {:?} but f {} variable {v} to be true", ans, if forced { "forces" } else { "does not force" }));
                 }
             }
         }
@@ -247,9 +259,16 @@ fn run(ctx: &mut Ctx) {
             Ok(sp) => {
                 for tt in 0..sp.nfun() as u64 {
                     if ctx.mine(tt) {
-                        check_f(ctx, &sp, tt);
+                        check_f(ctx, &sp, tt, false);
                     }
                 }
+            }
+        }
+        // the same on diagrams that were never interned in the environment asked
+        let spf = Space::<usize>::by_foreign(&syms_for(k));
+        for tt in 0..spf.nfun() as u64 {
+            if ctx.mine(tt + 1) {
+                check_f(ctx, &spf, tt, true);
             }
         }
     }
@@ -272,8 +291,10 @@ fn replay(ctx: &mut Ctx, c: &Value) {
         Some("family") => family(ctx, c["name"].as_str()),
         _ => {
             let k = c["k"].as_u64().unwrap_or(4) as usize;
-            if let Ok(sp) = Space::<usize>::by_interning(&syms_for(k)) {
-                check_f(ctx, &sp, c["f"].as_u64().unwrap_or(0));
+            if c["foreign"].as_bool().unwrap_or(false) {
+                check_f(ctx, &Space::<usize>::by_foreign(&syms_for(k)), c["f"].as_u64().unwrap_or(0), true);
+            } else if let Ok(sp) = Space::<usize>::by_interning(&syms_for(k)) {
+                check_f(ctx, &sp, c["f"].as_u64().unwrap_or(0), false);
             }
         }
     }
